@@ -493,6 +493,11 @@ def _run_jobs(prop, prop_name, tier, seed, t0):
     for (key, v, path) in violation_lines:
         print('  bucket %s (%d cases): %s' % (key, v['count'], v['message']))
         print('VIOLATION property=%s replay=%s' % (prop.ID, os.path.relpath(path, VERIF_DIR)))
+    if hasattr(prop, 'post_check'):
+        problem = prop.post_check(dict(merged['stats']), dict(merged['labels']))
+        if problem:
+            sys.stderr.write('HARNESS ERROR: %s\n' % problem)
+            return 2 if exit_code == 0 else exit_code
     if exit_code == 0 and distinct_nt < 2:
         sys.stderr.write('HARNESS ERROR: fewer than 2 distinct non-trivial cases generated\n')
         return 2
